@@ -10,6 +10,12 @@ hashlib/hmac.  Three kinds of exchange:
   tamper   -- the honest exchange with exactly one field of one server message changed in flight;
   impostor -- a server without the password that sends a well-formed challenge and guesses `v=`.
               In both the client must raise before completing: `_step` must never return None.
+A fourth kind, `login`, runs a few parameter sets per shard through the real
+`aiokafka.conn.create_conn(... security_protocol="SASL_PLAINTEXT")` on the simulated network against a
+peer that speaks ApiVersions / SaslHandshake (v0: raw tokens, v1: SaslAuthenticate frames) and answers
+the SCRAM messages from the same reference server - honestly, as an impostor, or with an EMPTY / error
+reply in place of one of its two messages: connect() may return only if a server that knows the
+password sent its genuine final message.
 Only the authenticator's uuid4 nonce source is rebound (to a seeded generator) so that a seed
 reproduces a run.
 """
@@ -29,6 +35,7 @@ LEVEL = "exploration"
 
 N_SHARDS = {"quick": 16, "thorough": 48}
 PARAM_SETS = {"quick": 64, "thorough": 200}     # per shard
+LOGIN_SETS = {"quick": 4, "thorough": 16}       # of which also run through connect() (16 logins each)
 
 RULE = (
     "Per shard a seeded stream of parameter sets (mechanism SHA-256/512 alternating; username from a pool "
@@ -52,12 +59,14 @@ ASSUMPTIONS = [
     "only requires the client to check the prefix); tampered nonces are used only when they do not start with "
     "the client nonce.",
     "'Aborts' = any exception out of the authenticator step before it reports completion.",
-    "The full SaslHandshake/SaslAuthenticate driver in conn.py is exercised by the simulator checks, not here.",
+    "The SaslHandshake/SaslAuthenticate driver in conn.py (_do_sasl_handshake) is driven by the `login` exchanges only "
+    "(a few parameter sets per shard, both handshake versions); SSL is not part of them.",
 ]
 REQUIRED_COUNTERS = ["honest_exchanges", "honest_completed", "tampered_nonce", "tampered_salt", "tampered_iterations",
                      "tampered_signature", "impostor_exchanges", "client_aborted_after_server_first",
                      "client_aborted_after_server_final", "exchanges_through_step_on_loop",
-                     "rotation_exchanges_against_old_password_server", "rotation_exchanges_against_new_password_server"]
+                     "rotation_exchanges_against_old_password_server", "rotation_exchanges_against_new_password_server",
+                     "login_honest_completed", "login_rogue_server_refused", "login_handshake_v0", "login_handshake_v1"]
 
 USERNAMES = [
     "user", "alice@example.com", "a,b", "a=b", "=,=,", ",", "=", ",=2C", "=3D", "u=2Cser=3D", "==2C,,=3D=",
@@ -92,6 +101,78 @@ class Lib:
             def uuid4():
                 return uuid.UUID(int=rng.getrandbits(128), version=4)
         self.conn.uuid = _UUID
+
+
+
+class SaslPeer:
+    """Broker side of a SASL/SCRAM login on the simulated network.  `wire` says what is done to the server's two SCRAM
+    messages on their way out: None (as the reference server wrote them), ("empty", k) - the k-th server message is
+    replaced by zero bytes with error code 0, ("error", k) - by an error reply (v1) / a closed connection (v0)."""
+
+    def __init__(self, server, hv, wire, mechanism):
+        self.server, self.hv, self.wire, self.mechanism = server, hv, wire, mechanism
+        self.n_msgs = 0
+        self.sent_genuine_final = False
+        self.trace = []
+
+    def accept(self, link):
+        return self
+
+    def on_disconnect(self, link):
+        self.trace.append("peer_sees_close")
+
+    def _scram(self, token):
+        """-> bytes to send, or None to signal an error"""
+        self.n_msgs += 1
+        k = self.n_msgs
+        try:
+            out = self.server.on_client_first(token) if k == 1 else self.server.on_client_final(token) if k == 2 else b""
+        except Exception as e:  # noqa: BLE001  (a reference server handed garbage)
+            self.trace.append(f"server_raised:{type(e).__name__}")
+            return None
+        if self.wire and self.wire[1] == k:
+            self.trace.append(f"{self.wire[0]}@{k}")
+            return b"" if self.wire[0] == "empty" else None
+        if k == 2 and self.server.mode == "honest" and self.server.accepted:
+            self.sent_genuine_final = True
+        return out
+
+    def on_frame(self, link, frame):
+        import struct
+        link.done_request()
+        if link.state.get("raw"):
+            out = self._scram(bytes(frame))
+            if out is None:
+                link.close()
+            else:
+                link.send_frame(out)
+            return
+        api, ver, corr = struct.unpack(">hhi", frame[:8])
+        (cl,) = struct.unpack(">h", frame[8:10])
+        body = frame[10 + max(cl, 0):]
+        self.trace.append(f"api{api}v{ver}")
+        if api == 18:
+            apis = [(18, 0, 0), (17, 0, self.hv), (36, 0, 1)]
+            link.send_frame(struct.pack(">ihi", corr, 0, len(apis)) + b"".join(struct.pack(">hhh", *a) for a in apis))
+        elif api == 17:
+            m = self.mechanism.encode()
+            link.send_frame(struct.pack(">ihi", corr, 0, 1) + struct.pack(">h", len(m)) + m)
+            if ver == 0:
+                link.state["raw"] = True
+        elif api == 36:
+            (n,) = struct.unpack(">i", body[:4])
+            out = self._scram(bytes(body[4:4 + n]))
+            if out is None:
+                msg = b"Authentication failed"
+                rep = struct.pack(">ihh", corr, 58, len(msg)) + msg + struct.pack(">i", 0)
+            else:
+                rep = struct.pack(">ihh", corr, 0, -1) + struct.pack(">i", len(out)) + out
+            if ver >= 1:
+                rep += struct.pack(">q", 0)
+            link.send_frame(rep)
+        else:
+            self.trace.append("unexpected_api")
+            link.close()
 
 
 class Checker:
@@ -285,6 +366,81 @@ class Checker:
         self.honest(p2)                                                           # knows the NEW password
         self.count("rotation_exchanges_against_new_password_server")
 
+
+    # -- through connect() -----------------------------------------------------------------
+    def login(self, p, server, hv, wire, variant):
+        """One connect() of a real AIOKafkaConnection against a SaslPeer; -> (connected, exception, peer)."""
+        from vf.simloop import SimNet, run_sim
+        lib = self.lib
+        peer = SaslPeer(server, hv, wire, p["mechanism"])
+        net = SimNet(seed=self.rng.getrandbits(30), lat=(0.0002, 0.002), fragment=True)
+        net.listen("broker", 9092, peer)
+        out = {"connected": False, "exc": None}
+
+        async def main(loop):
+            try:
+                conn = await lib.conn.create_conn("broker", 9092, request_timeout_ms=5000, security_protocol="SASL_PLAINTEXT",
+                                                  sasl_mechanism=p["mechanism"], sasl_plain_username=p["username"],
+                                                  sasl_plain_password=p["password"])
+            except Exception as e:  # noqa: BLE001
+                out["exc"] = e
+                return
+            out["connected"] = conn.connected()
+            conn.close()
+
+        try:
+            run_sim(main, seed=1, net=net, max_virtual_s=120, max_events=20000)
+        except Exception as e:  # noqa: BLE001
+            out["exc"] = e
+            out["harness_error"] = True
+        self.count(f"login_handshake_v{hv}")
+        self.count("login_exchanges")
+        self.note(p, ["login", hv, variant])
+        return out, peer
+
+    def logins(self, p):
+        rng = self.rng
+        for hv in (0, 1):
+            # honest broker
+            server = self.make_server(p, mode="honest")
+            out, peer = self.login(p, server, hv, None, "honest")
+            w = dict(self.witness(p, ["login", hv, "honest"], []), peer_trace=peer.trace, error=repr(out["exc"]))
+            if out.get("harness_error"):
+                self.count("login_harness_errors")
+            elif not out["connected"]:
+                self.violate("login_fails_with_honest_server", f"connect() via SaslHandshake v{hv} failed with {out['exc']!r} although "
+                             "the broker knows the password", w)
+            else:
+                self.count("login_honest_completed")
+                for kind, detail in server.problems:
+                    self.violate(kind, f"honest server (login via connect(), handshake v{hv}): {detail}", w)
+            # brokers that never prove they know the password
+            hlen = 32 if p["mechanism"].endswith("256") else 64
+            rogues = [("empty_first", self.make_server(p, mode="honest"), ("empty", 1)),
+                      ("empty_final", self.make_server(p, mode="honest"), ("empty", 2)),
+                      ("error_final", self.make_server(p, mode="honest"), ("error", 2)),
+                      ("impostor_empty_final", ref.ScramServer(p["mechanism"], p["username"], None, rng.randbytes(8), 4, p["ext"],
+                                                               mode="impostor", guess=("zeros",)), ("empty", 2)),
+                      ("impostor_random", ref.ScramServer(p["mechanism"], p["username"], None, rng.randbytes(8), 4, p["ext"],
+                                                          mode="impostor", guess=("random", rng.randbytes(hlen))), None),
+                      ("other_password", self.make_server(p, mode="honest", password=p["password"] + "x"), None),
+                      ("tampered_signature", self.make_server(p, mode="tamper", tamper=("signature", ("flipbit", rng.randrange(hlen * 8)))), None)]
+            for name, server, wire in rogues:
+                out, peer = self.login(p, server, hv, wire, name)
+                if out.get("harness_error"):
+                    self.count("login_harness_errors")
+                    continue
+                if out["connected"] and not peer.sent_genuine_final:
+                    self.violate(f"login_completes_with_broker_that_never_proved_the_password:{name}",
+                                 f"connect() via SaslHandshake v{hv} returned a connected connection although the broker's "
+                                 f"genuine server-final message never reached the client (broker behaviour: {name})",
+                                 dict(self.witness(p, ["login", hv, name], []), peer_trace=peer.trace))
+                elif out["connected"]:
+                    self.count("login_rogue_variant_was_actually_genuine")
+                else:
+                    self.count("login_rogue_server_refused")
+                    self.count(f"login_refused_with_{type(out['exc']).__name__}")
+
     def impostors(self, p):
         rng = self.rng
         hlen = 32 if p["mechanism"].endswith("256") else 64
@@ -355,6 +511,8 @@ def run_shard(params):
             ck.tampers(p)
             ck.impostors(p)
             ck.rotation(p)
+            if i < LOGIN_SETS[params.get("tier", "quick")]:
+                ck.logins(p)
             ck.count("parameter_sets")
             ck.count(f"parameter_sets_{p['mechanism']}")
             if p["iterations"] > 4096:
@@ -362,7 +520,8 @@ def run_shard(params):
     finally:
         lib.loop.close()
     res["evaluations"] = sum(v for k, v in ck.counters.items()
-                             if k in ("honest_exchanges", "impostor_exchanges", "rotation_exchanges_against_old_password_server")
+                             if k in ("honest_exchanges", "impostor_exchanges", "rotation_exchanges_against_old_password_server",
+                                      "login_exchanges")
                              or k.startswith("tampered_"))
     res["violations"] = list(ck.violations.values())
     res["nontrivial"] = ck.nontrivial
@@ -384,6 +543,8 @@ def replay(witness):
         ck.honest(p)
         ck.tampers(p)
         ck.impostors(p)
+        if isinstance(witness.get("variant"), list) and witness["variant"][:1] == ["login"]:
+            ck.logins(p)
     finally:
         lib.loop.close()
     return {"evaluations": 1, "violations": list(ck.violations.values())}
